@@ -72,6 +72,9 @@ func c18fRun(t *testing.T) func(f []string) []string {
 	InitModule()
 
 	return func(f []string) (out []string) {
+		if f[0] == "C18.httpjson" {
+			return c18hRun(f)
+		}
 		if f[0] != "C18.applied" {
 			panic("unknown op " + f[0])
 		}
@@ -234,6 +237,129 @@ func c18fGen(r *rand.Rand, emit vutil.Emit) {
 			f = append(f, strconv.FormatInt(d[0], 10), strconv.FormatInt(d[1], 10))
 		}
 		emit(f...)
+	}
+	c18hGen(r, emit, zones, max(n/3, 200))
+}
+
+// ---------------------------------------------------------------------------
+// C18.httpjson: a serialised schedule through the real HTTP handler
+// PUT /control/blocked_services/update.  The line has the layout of C18.json
+// (text, parseOK, tz, tzOK, 7 x (present, start, end) oracle values, tokOK,
+// 7 x (kind, startTok, endTok)); the documents are built token by token, so the
+// tokens are always known and the oracle values are unused (0).
+
+var c18hToks = []string{
+	"0", "60000", "3600000", "86400000", "86460000", "-60000", "59999", "60000.0", "6e4", "3.6e6", "36e5", "0.5", "1.5", "-0",
+	"3600000.25", "3600000.5", "-0.5", "0.2", "0.7", "43200000.9999", "1e-7", "-1e-7", "0.000001", "60000.000001",
+	"2100000.000001", "540000.000010", "86400000.000001", "60000.0000001", "\"60000\"", "\"1h\"", "1e-400", "0.0", "0e0",
+}
+
+func c18hRun(f []string) []string {
+	text := vutil.Unhex(f[1])
+	d := &DNSFilter{confMu: &sync.RWMutex{}, conf: &Config{
+		ConfigModified:  func() {},
+		BlockedServices: &BlockedServices{Schedule: schedule.EmptyWeekly()},
+	}}
+	body := `{"ids":["youtube"],"schedule":` + text + `}`
+	rec := httptest.NewRecorder()
+	d.handleBlockedServicesUpdate(rec, httptest.NewRequest(http.MethodPut, "/control/blocked_services/update", strings.NewReader(body)))
+	if rec.Code != http.StatusOK {
+		return []string{"err", strconv.Itoa(rec.Code)}
+	}
+	// what was installed, read back through its public JSON form
+	w := d.conf.BlockedServices.Schedule
+	data, err := json.Marshal(w)
+	if err != nil {
+		panic(err)
+	}
+	var m map[string]json.RawMessage
+	if err = json.Unmarshal(data, &m); err != nil {
+		panic(err)
+	}
+	var tz string
+	_ = json.Unmarshal(m["time_zone"], &tz)
+	out := []string{"ok", vutil.Hex(tz)}
+	for _, k := range c18sDayKeys {
+		var day struct{ Start, End json.Number }
+		if raw, ok := m[k]; ok {
+			if err = json.Unmarshal(raw, &day); err != nil {
+				panic(err)
+			}
+		}
+		for _, v := range []json.Number{day.Start, day.End} {
+			ms := int64(0)
+			if v != "" {
+				if ms, err = strconv.ParseInt(string(v), 10, 64); err != nil {
+					panic("non-integer milliseconds in the installed schedule: " + string(v))
+				}
+			}
+			out = append(out, strconv.FormatInt(ms*1_000_000, 10))
+		}
+	}
+	w2 := &schedule.Weekly{}
+	rt := json.Unmarshal(data, w2) == nil
+	if rt {
+		data2, merr := json.Marshal(w2)
+		rt = merr == nil && string(data2) == string(data)
+	}
+
+	return append(out, vutil.Hex(string(data)), vutil.B(rt))
+}
+
+func c18hGen(r *rand.Rand, emit vutil.Emit, zones []string, n int) {
+	for i := 0; i < n; i++ {
+		tz := vutil.Pick(r, zones)
+		if r.IntN(6) == 0 {
+			tz = vutil.Pick(r, []string{"", "UTC", "Nowhere/Land", "Local"})
+		}
+		_, lerr := time.LoadLocation(tz)
+		pBad := 2 + r.IntN(40)
+		var pair []string
+		tok := func() string {
+			if len(pair) == 0 {
+				// an ordered pair of whole minutes
+				a, b := r.IntN(1441), r.IntN(1441)
+				if a > b {
+					a, b = b, a
+				}
+				if a == b {
+					a, b = 0, max(b, 1)
+				}
+				pair = []string{strconv.Itoa(a * 60000), strconv.Itoa(b * 60000)}
+			}
+			t := pair[0]
+			pair = pair[1:]
+			if r.IntN(pBad) == 0 {
+				return vutil.Pick(r, c18hToks)
+			}
+
+			return t
+		}
+		parts := []string{}
+		tf := []string{"1"}
+		for _, k := range c18sDayKeys {
+			switch r.IntN(12) {
+			case 0, 1, 2, 3:
+				tf = append(tf, "0", "~", "~")
+			case 4:
+				a := tok()
+				pair = nil
+				parts = append(parts, `"`+k+`":{"start":`+a+`}`)
+				tf = append(tf, "1", vutil.Hex(a), "~")
+			default:
+				a, b := tok(), tok()
+				parts = append(parts, `"`+k+`":{"start":`+a+`,"end":`+b+`}`)
+				tf = append(tf, "1", vutil.Hex(a), vutil.Hex(b))
+			}
+		}
+		tzj, _ := json.Marshal(tz)
+		parts = append(parts, `"time_zone":`+string(tzj))
+		r.Shuffle(len(parts), func(i, j int) { parts[i], parts[j] = parts[j], parts[i] })
+		f := []string{"C18.httpjson", vutil.Hex("{" + strings.Join(parts, ",") + "}"), "1", vutil.Hex(tz), vutil.B(lerr == nil)}
+		for j := 0; j < 7; j++ {
+			f = append(f, "0", "0", "0")
+		}
+		emit(append(f, tf...)...)
 	}
 }
 
